@@ -131,8 +131,9 @@ Proof. exact view_tree_covers. Qed.
    canvas: no panic, no InvalidLayout, nothing outside the surface touched.  This is C10_total re-exported at
    the view tree of a document (it holds for every vtree); C19's own content is the previous theorem and the
    mapping `view_tree`, whose node structure (child count and order, wrapper unwrapping, trace-layout
-   transparent, cached ref with a node of its own) the run compares, as `vskel`, with the layout tree of the
-   really deserialised view (Corr/C19Corr.v CView) *)
+   transparent, cached ref with a node of its own) the run compares, by `skel_fits` (= `vskel`, except that a
+   flex child with a factor and no room left keeps its default node), with the layout tree of the really
+   deserialised view (Corr/C19Corr.v CView) *)
 Theorem C19_view_layout_render :
   forall (orc : N -> json -> bool) (frgba : str -> option rgba) (K : content) (handlers : str -> bool)
     (k : vkind) (j : json) (v : vtree),
@@ -209,7 +210,7 @@ Example C19_image_cropped_example :
 Proof. vm_compute. split; reflexivity. Qed.
 
 (* view_tree on a concrete document: flex of a cached ref, a handler type, a wrapper around a container of a
-   text, and an image_ascii; with the shape (vskel) the run compares with the real layout tree *)
+   text, and an image_ascii; with the shape (vskel / skel_fits) the run compares with the real layout tree *)
 Example C19_view_tree_example :
   let text := JObj [(s2l "type", JStr (s2l "text")); (s2l "text", JStr (s2l "a"))] in
   let doc := JObj [(s2l "type", JStr (s2l "flex")); (s2l "children", JArr [
@@ -223,10 +224,16 @@ Example C19_view_tree_example :
   = Ok (VFlex Hor JStart
          [(VRef (Some (VContainer (VText [] true) face0 AShrink AShrink (mkM 0 0 0 0) 0 0)), None, None, AShrink);
           (VText [] true, None, None, AShrink);
-          (VContainer (VText [] true) face0 AShrink AShrink (mkM 0 0 0 0) 0 0, None, None, AShrink);
+          (VContainer (VText [] true) face0 AShrink AShrink (mkM 0 0 0 0) 0 0, Some 1%positive, None, AShrink);
           (VImageAscii 1 1 0, None, None, AShrink)])
   /\ omap vskel (view_tree (fun _ _ => true) (fun _ => None) (content0 true) hs KView doc)
      = Ok (SK [SK [SK [SK []]]; SK []; SK [SK []]; SK []])
+  (* the child with a flex factor may have been left without room (its node then has no children); no other may *)
+  /\ omap (fun v => (skel_fits v (SK [SK [SK [SK []]]; SK []; SK [SK []]; SK []]),
+                     skel_fits v (SK [SK [SK [SK []]]; SK []; SK []; SK []]),
+                     skel_fits v (SK [SK []; SK []; SK [SK []]; SK []])))
+       (view_tree (fun _ _ => true) (fun _ => None) (content0 true) hs KView doc)
+     = Ok (true, true, false)
   /\ view_de_kind (fun _ _ => true) (fun _ => None) no_handlers KView doc = Err 9.
 Proof. vm_compute. repeat split; reflexivity. Qed.
 
